@@ -70,7 +70,19 @@ def tasks_sampled(ctx):
     return t
 
 
+def deductive(ctx):
+    """engine D: NodeExecution.update_status never raises (Job.done may raise ValueError for an errored
+    result, verified in Job.done's own contract); NodeExecution.get_runnable_tasks releases jobs only
+    when no predecessor is errored/unrunnable"""
+    from contracts import runnable as R, job_done as JD
+    from pyvc.verify import verify, summarize
+
+    for c in (R.update_status_contract("C14"), JD.done_contract("C14"), R.node_contract("C14")):
+        summarize(ctx, verify(ctx, c))
+
+
 def run(ctx):
+    deductive(ctx)
     ctx.level = "other"
     ctx.explanation = (
         "Bounded check (engine B) of the scheduling decision functions and of Submitter.expand_workflow_async with a scripted "
